@@ -9,6 +9,7 @@ import TantivyModel.Model.BlockCursor
 import TantivyModel.Model.Recorder
 import TantivyModel.Model.JsonPositions
 import TantivyModel.Model.PositionReader
+import TantivyModel.Model.FieldSerializer
 import TantivyModel.Proofs.VInt32Source
 /-!
 Line protocol of the C07 model (see harness/src/props/c07.rs):
@@ -28,6 +29,7 @@ Line protocol of the C07 model (see harness/src/props/c07.rs):
 * `blocksearch <values> <target>` → index
 * `invert_json <opt> <docs separated by ; and events by slash: <pathhex>~T~<tokens> | <pathhex>~N~<termhex>>` → `<terms>|<total_num_tokens>`
 * `pipeline_remap <opt> <new ids, comma separated, indexed by old id> <corpus>` → `<terms>|<total>` through the doc_id_map branch of Recorder::serialize
+* `segment <opt> <corpus>` → `df:ps:pe:qs:qe;…`, the TermInfos of the terms in byte order (recorders → FieldSerializer)
 * `pipeline <opt> <corpus>` → same format as `invert`, computed through recorders → serializer → decoder
 * `invert <opt> <corpus>` → `<terms>|<total_num_tokens>|<fieldnorm ids>`
 -/
@@ -136,6 +138,14 @@ def handlePipeline (o : String) (corpus : String) : String :=
     (if entries.isEmpty then "-" else ";".intercalate entries)
     ++ "|" ++ toString ix.totalNumTokens ++ "|" ++
     showNatList (c.map (fun d => FieldNorm.fieldnormId (Recorder.docTokenCount o d)))
+  | _, _ => "bad-op"
+
+/-- the TermInfos of the field's terms as `serialize_postings` lays them out -/
+def handleSegment (o : String) (corpus : String) : String :=
+  match parseOpt o, parseCorpus corpus with
+  | some o, some c =>
+    let f := FieldSerializer.segmentFiles o c
+    if f.infos.isEmpty then "-" else ";".intercalate (f.infos.map showTermInfo)
   | _, _ => "bad-op"
 
 /-- the `doc_id_map` branch: index the corpus in arrival order, serialize with the doc ids mapped
@@ -295,6 +305,8 @@ def handle : List String → String
   | ["invert_json", o, corpus] => handleInvertJson o corpus
   | ["invert_json", o] => handleInvertJson o ""
   | ["pipeline_remap", o, ids, corpus] => handlePipelineRemap o ids corpus
+  | ["segment", o, corpus] => handleSegment o corpus
+  | ["segment", o] => handleSegment o ""
   | ["pipeline", o, corpus] => handlePipeline o corpus
   | ["pipeline", o] => handlePipeline o ""
   | _ => "bad-op"
